@@ -78,6 +78,8 @@ pub fn run_sequence(seq: &[Query], use_value: bool) -> (Option<(&'static str, St
     }
     (None, n_dom > 0 && evicted)
 }
+/// size of the largest set of pairwise incomparable queries is not measured; the number of distinct coordinates is a proxy
+pub fn large_universe(seq: &[Query]) -> bool { seq.iter().any(|q| q.s.c0 > 2 || q.s.c1 > 1) }
 
 fn universe(depths: u8) -> Vec<Query> {
     let mut u = vec![];
@@ -212,9 +214,10 @@ pub fn run(shard: &Shard) -> i32 {
     case_loop(shard, u64::MAX, |_i, rng| {
         if rng.chance(1, 2) {
             let len = 5 + rng.usize(196);
-            let seq: Vec<Query> = (0..len).map(|_| *rng.pick(&u2)).collect();
+            let _ = &u2;
+            let seq: Vec<Query> = random_queries(rng, len, 2);
             let uv = rng.chance(1, 2);
-            with_acc(|a| { judge(&seq, uv, a, false); a.bump("random_sequences", 1); });
+            with_acc(|a| { judge(&seq, uv, a, false); a.bump("random_sequences", 1); if large_universe(&seq) { a.bump("random_sequences_over_large_coordinates", 1); } });
         } else {
             let p = Profile { only_all_impacted: true, with_dominance: true, small: rng.chance(1, 2), weak_t_dominance: true, medium_share: 1, ..Default::default() };
             let mut spec = random_spec(rng, &p);
@@ -240,6 +243,11 @@ fn enumerate(u: &[Query], seq: &mut Vec<Query>, maxlen: usize, use_value: bool, 
     }
 }
 pub fn random_queries(rng: &mut Rng, len: usize, depths: u8) -> Vec<Query> {
+    // small universe (many equal / comparable states) or large coordinates (Pareto fronts of tens of incomparable entries)
+    if rng.chance(1, 3) {
+        let m = *rng.pick(&[8i64, 16, 40]);
+        return (0..len).map(|_| Query { s: DState { key: rng.below(2) as i8, c0: rng.range(0, m) as i8, c1: rng.range(0, m) as i8 }, depth: rng.below(depths as u64) as u8, value: rng.range(0, 6) as i8 }).collect();
+    }
     let u = universe(depths);
     (0..len).map(|_| *rng.pick(&u)).collect()
 }
